@@ -5,13 +5,16 @@
 //            random: |train| == round-half-up(percentage * n / 100); equal seeds give equal splits
 //   sample:  without replacement: `count` distinct sorted members; with replacement: `count` sorted members;
 //            weighted: no index of zero weight
-// usage: C12_replay kfold|random n folds seed [train_per]        C12_replay without|with|weighted n count
-// The input list is non-contiguous: sample i is 3*i + 7.  exit 1 = property violated, 0 = holds.
+// usage: C12_replay kfold|random n folds seed [train_per]        C12_replay without|with|weighted n count [weight scale]
+// The input list is non-contiguous and NOT sorted: the values 3*i + 7 with neighbours swapped pairwise ("for any list of
+// distinct sample indices").  Weighted: the weight of position i is 0 for i % 3 == 1, else scale * (1 + i % 5) -- weights
+// are only meaningful up to scale.  exit 1 = property violated, 0 = holds.
 #include <algorithm>
 #include <cstdio>
 #include <cstdlib>
 #include <nano/core/sampling.h>
 #include <nano/splitter.h>
+#include <map>
 #include <set>
 #include <string>
 using namespace nano;
@@ -22,6 +25,10 @@ static indices_t make_input(tensor_size_t n)
     for (tensor_size_t i = 0; i < n; ++i)
     {
         s(i) = 3 * i + 7;
+    }
+    for (tensor_size_t i = 0; i + 1 < n; i += 2)
+    {
+        std::swap(s(i), s(i + 1));
     }
     return s;
 }
@@ -112,12 +119,18 @@ int main(int argc, char* argv[])
     }
 
     const auto count = static_cast<tensor_size_t>(std::atoll(argv[3]));
+    const auto scale = argc > 4 ? std::atof(argv[4]) : 1.0;
+    std::map<tensor_size_t, tensor_size_t> position;
+    for (tensor_size_t i = 0; i < n; ++i)
+    {
+        position[in(i)] = i;
+    }
     auto       rng   = make_rng(42);
     indices_t  sel;
     tensor1d_t weights(n);
     for (tensor_size_t i = 0; i < n; ++i)
     {
-        weights(i) = (i % 3 == 0) ? 0.0 : 1.0 + static_cast<scalar_t>(i % 5);
+        weights(i) = (i % 3 == 1) ? 0.0 : scale * (1.0 + static_cast<scalar_t>(i % 5));
     }
     if (kind == "without")
     {
@@ -145,7 +158,7 @@ int main(int argc, char* argv[])
         {
             return fail("selected index is not a member of the input");
         }
-        if (kind == "weighted" && weights((s - 7) / 3) <= 0.0)
+        if (kind == "weighted" && weights(position[s]) <= 0.0)
         {
             return fail("selected index has zero weight");
         }
